@@ -280,7 +280,7 @@ pub fn run(ctx: &mut Ctx) {
     ctx.extra("exhaustive_alphabet", json!(alphabet.iter().map(show).collect::<Vec<_>>()));
 
     // ---- (b) long random histories over large alphabets
-    let nrand = ctx.n(96, 1600);
+    let nrand = ctx.n(96, 12_000);
     for i in 0..nrand {
         if ctx.mine(case) {
             ctx.begin(case);
